@@ -24,11 +24,13 @@ import (
 	"os"
 	"os/signal"
 	"path/filepath"
+	"runtime/pprof"
 	"sort"
 	"strings"
 	"sync"
 	"sync/atomic"
 	"syscall"
+	"time"
 
 	"github.com/basekick-labs/arc/internal/backup"
 	"github.com/basekick-labs/arc/internal/storage"
@@ -215,7 +217,7 @@ func buildTrees(thorough bool) []*tree {
 	}
 	ts := []*tree{t0, t1, t4, t5, wide("T10", 10)}
 	if thorough {
-		ts = append(ts, wide("T20", 20))
+		ts = append(ts, wide("T7", 7), wide("T20", 20))
 	}
 	return ts
 }
@@ -822,17 +824,32 @@ func main() {
 	signal.Notify(sigc, syscall.SIGINT, syscall.SIGTERM)
 	go func() { <-sigc; cleanup(); os.Exit(2) }()
 
+	if pf := os.Getenv("VERIF_CPUPROFILE"); pf != "" {
+		f, _ := os.Create(pf)
+		pprof.StartCPUProfile(f)
+		defer pprof.StopCPUProfile()
+	}
+	// stay inside the wall budgets of BUILDERS.md (a capped run reports exhaustive=false)
+	if os.Getenv("VERIF_DEADLINE_S") == "" {
+		d := 50 * time.Second
+		if !run.Quick() {
+			d = 13 * time.Minute
+		}
+		if dl := time.Now().Add(d); dl.Before(run.Deadline) {
+			run.Deadline = dl
+		}
+	}
 	trees := buildTrees(!run.Quick())
 	bound := func(t *tree) bounds {
 		n := len(t.Files)
 		switch {
-		case n <= 5:
+		case n <= 7: // T0 T1 T4 T5 (and T7 in thorough): every subset, both phases
 			return bounds{-1, -1, -1}
 		case n <= 10:
 			if run.Quick() {
 				return bounds{2, 2, 1}
 			}
-			return bounds{4, -1, 3}
+			return bounds{4, 4, 3}
 		default:
 			return bounds{3, 2, 1}
 		}
@@ -1063,6 +1080,7 @@ func main() {
 	if len(outcomes) < 3 {
 		fmt.Println("C13: VACUITY WARNING: fewer than 3 distinct outcomes")
 	}
+	pprof.StopCPUProfile()
 	cleanup()
 	run.Finish()
 }
